@@ -52,12 +52,12 @@ type Func struct {
 	Builtin *ssa.Builtin
 }
 
-// MapV: Go map modelled as SMT arrays (present, value) held in a state cell; Nil is the nil map.
+// MapV: Go map; its contents live in a state cell (MapState) so that updates are journaled. Nil is the nil map.
 type MapV struct {
 	Nil  bool
 	KeyW int
-	ValW int // 0 => bool values
 	St   *Cell
+	Elem types.Type
 }
 
 // Opaque: values the engine carries around without looking inside (errors, loggers, time values, ...).
@@ -504,11 +504,7 @@ func (ex *Exec) iteValue(c *T, a, b Value) Value {
 		}
 	case MapState:
 		if bv, ok := b.(MapState); ok {
-			m := MapState{Present: ex.C.Ite(c, av.Present, bv.Present), Vals: ex.C.Ite(c, av.Vals, bv.Vals)}
-			if av.Count != nil && bv.Count != nil {
-				m.Count = ex.C.Ite(c, av.Count, bv.Count)
-			}
-			return m
+			return ex.mergeMapStates(c, av, bv)
 		}
 	case Func:
 		if bv, ok := b.(Func); ok && av.Fn == bv.Fn && len(av.Bind) == 0 && len(bv.Bind) == 0 && av.Builtin == bv.Builtin {
@@ -596,7 +592,15 @@ func sameValue(a, b Value) bool {
 		return ok && (av == bv || (av.Nil && bv.Nil))
 	case MapState:
 		bv, ok := b.(MapState)
-		return ok && av == bv
+		if !ok || len(av.E) != len(bv.E) || av.Count != bv.Count {
+			return false
+		}
+		for i := range av.E {
+			if av.E[i].Guard != bv.E[i].Guard || av.E[i].Key != bv.E[i].Key || av.E[i].Pres != bv.E[i].Pres || !sameValue(av.E[i].Val, bv.E[i].Val) {
+				return false
+			}
+		}
+		return true
 	case Func:
 		bv, ok := b.(Func)
 		return ok && av.Fn == bv.Fn && av.Builtin == bv.Builtin && len(av.Bind) == 0 && len(bv.Bind) == 0
